@@ -432,8 +432,7 @@ Qed.
 Lemma ext_push_ex d p r t v : In r (series_ids d) -> ext d p d (push_ex p (r, t, v)).
 Proof.
   intros H. constructor; auto using incl_refl.
-  - simpl. apply incl_refl.
-  - intros it Hi. apply pending_push_ex in Hi. destruct Hi as [Hi|Hi]; auto.
+  intros it Hi. apply pending_push_ex in Hi. destruct Hi as [Hi|Hi]; auto.
     right. unfold item_ref. rewrite Hi. simpl. auto.
 Qed.
 
